@@ -13,6 +13,19 @@ pub fn parse_expr(p: &mut LuaParser) -> ParseResult {
 }
 
 fn parse_sub_expr(p: &mut LuaParser, limit: i32) -> ParseResult {
+    if !p.enter_nesting() {
+        p.push_error(LuaParseError::syntax_error_from(
+            &t!("expression is nested too deeply"),
+            p.current_token_range(),
+        ));
+        return Err(ParseFailReason::UnexpectedToken);
+    }
+    let result = parse_sub_expr_unguarded(p, limit);
+    p.leave_nesting();
+    result
+}
+
+fn parse_sub_expr_unguarded(p: &mut LuaParser, limit: i32) -> ParseResult {
     let uop = LuaOpKind::to_unary_operator(p.current_token());
     let mut cm = if uop != UnaryOperator::OpNop {
         let m = p.mark(LuaSyntaxKind::UnaryExpr);
